@@ -817,11 +817,34 @@ func (c *Ctx) lemmaObligations(name string) ([]*Obligation, error) {
 		return nil, fmt.Errorf("no lemma %s", name)
 	}
 	var b strings.Builder
-	// earlier lemmas may be used
-	for _, l := range c.lemmas[:idx] {
-		b.WriteString(c.lemmaAxiom(l) + "\n")
-	}
 	binders, req, ens, _ := c.lemmaFormula(lm, "")
+	// earlier lemmas may be used; only those that talk about this lemma's symbols (or symbols of their
+	// definitions, two levels deep) are given to the solver
+	rel := map[string]bool{}
+	for _, n := range c.specSymbolsIn(req + " " + ens) {
+		rel[n] = true
+	}
+	for depth := 0; depth < 2; depth++ {
+		for n := range rel {
+			if cs := c.compiled[n]; cs != nil {
+				for _, m := range c.specSymbolsIn(cs.def + " " + cs.absDef) {
+					rel[m] = true
+				}
+			}
+		}
+	}
+	for _, l := range c.lemmas[:idx] {
+		ax := c.lemmaAxiom(l)
+		use := false
+		for _, n := range c.specSymbolsIn(ax) {
+			if rel[n] {
+				use = true
+			}
+		}
+		if use {
+			b.WriteString(ax + "\n")
+		}
+	}
 	for _, bd := range binders {
 		b.WriteString("(declare-fun " + strings.Replace(strings.TrimSuffix(strings.TrimPrefix(bd, "("), ")"), " ", " () ", 1) + ")\n")
 	}
